@@ -22,6 +22,7 @@ value `1 + 2^-52` (`C11_range` therefore keeps its 2^52 hypothesis).
 import BBProofs.Isim
 import BBProofs.IsimErr
 import BBProofs.Fl
+import BBProofs.GenEq
 
 namespace BB
 
@@ -130,5 +131,67 @@ example : isimFromSum [3, 2, 0, 1] 3 = some (rnd (exactIsim [3, 2, 0, 1] 3)) :=
 example : ∃ v, isimFromSum [3, 2, 0, 1] 3 = some v ∧
     |v - exactIsim [3, 2, 0, 1] 3| ≤ 18 * 2 ^ (-53 : ℤ) * exactIsim [3, 2, 0, 1] 3 ∧ 0 ≤ v :=
   C11_ulp [3, 2, 0, 1] 3 (by decide) (by decide) (by decide) (by decide)
+
+/-! ## The same for the code itself
+
+`BBGen.*` is the Lean text `tools/py2lean.py` wrote from the Python sources on this run; `PV` is the
+Python / NumPy value algebra of `BBModel/PyNum.lean` (see `BBProofs/GenEq.lean`). -/
+
+open PV in
+theorem C11_code_isim (expf : Rat → Rat) (w : W) (ks : List Nat) (n : Nat) (hn : 2 ≤ n)
+    (hk : ∀ k ∈ ks, k ≤ n) (hS : 0 < ks.sum) (hb : n * ks.sum < 2 ^ 52) :
+    BBGen.jt_isim_from_sum expf (PV.arr w ks) (PV.int n) = PV.flt (some (rnd (exactIsim ks n))) := by
+  have hn52 : n < 2 ^ 52 := by
+    have : n * 1 ≤ n * ks.sum := Nat.mul_le_mul_left n hS
+    omega
+  rw [gen_isim' expf w ks n (fun k h => by have := hk k h; omega) (by omega)
+    (fun _ _ => isimDen_ne_zero ks n hn hk hS hb)]
+  obtain ⟨h1, _⟩ := isim_no_wrap ks n hk (by omega)
+  unfold isimPV
+  have : ¬ n < 2 := by omega
+  have h0 : ¬ u64 ks.sum = 0 := by rw [h1]; omega
+  simp only [this, if_false, h0, C11_exact ks n hn hk hS hb]
+
+open PV in
+theorem C11_code_empty (expf : Rat → Rat) (w : W) (ks : List Nat) (n : Nat) (hn : 2 ≤ n) (hn' : n < 2 ^ 64)
+    (h0 : ∀ k ∈ ks, k = 0) :
+    BBGen.jt_isim_from_sum expf (PV.arr w ks) (PV.int n) = PV.int 1 := by
+  have hs : ks.sum = 0 := List.sum_eq_zero h0
+  rw [gen_isim' expf w ks n (fun k h => by rw [h0 k h]; norm_num) hn'
+    (fun _ h => absurd (by rw [hs]; rfl) h)]
+  unfold isimPV
+  have : ¬ n < 2 := by omega
+  simp [this, hs, u64]
+
+open PV in
+theorem C11_code_nan (expf : Rat → Rat) (w : W) (ks : List Nat) (n : Nat) (hn : n < 2)
+    (hls : ∀ k ∈ ks, k < 2 ^ 64) :
+    BBGen.jt_isim_from_sum expf (PV.arr w ks) (PV.int n) = PV.flt none := by
+  rw [gen_isim' expf w ks n hls (by omega) (fun h => by omega)]
+  simp [isimPV, hn]
+
+open PV in
+theorem C11_code_radius_compl (expf : Rat → Rat) (w : W) (s : Summary) (h : SumOk s) :
+    BBGen.jt_isim_radius_compl_from_sum expf (PV.arr w s.ls) (PV.int s.n) = PV.flt (radiusCompl s.ls s.n) :=
+  gen_radius_ok expf w s h
+
+open PV in
+theorem C11_code_diameter (expf : Rat → Rat) (w : W) (s : Summary) (h : SumOk s) :
+    PV.toFlt (BBGen.jt_isim_diameter_from_sum expf (PV.arr w s.ls) (PV.int s.n)) = some (diameterFromSum s.ls s.n) := by
+  unfold BBGen.jt_isim_diameter_from_sum
+  rw [gen_isim_ok expf w s h]
+  rcases isimPV_val s.ls s.n with hv | ⟨hv, hj⟩
+  · rw [hv, sub_int_flt]
+    cases hx : isimFromSum s.ls s.n <;> simp [diameterFromSum, hx, PV.fop, rnd_one]
+  · rw [hv]
+    simp [diameterFromSum, hj, fsub, rnd_zero]
+
+open PV in
+theorem C11_code_radius (expf : Rat → Rat) (w : W) (s : Summary) (h : SumOk s) :
+    BBGen.jt_isim_radius_from_sum expf (PV.arr w s.ls) (PV.int s.n) = PV.flt (radiusFromSum s.ls s.n) := by
+  unfold BBGen.jt_isim_radius_from_sum
+  rw [gen_radius_ok expf w s h, sub_int_flt]
+  cases hx : radiusCompl s.ls s.n <;> simp [radiusFromSum, hx, PV.fop, rnd_one]
+
 
 end BB
